@@ -21,7 +21,9 @@ THEOREMS = [
     "C01_value_production_sound", "C01_value_production_complete",
     "C01_exec_sound", "C01_exec_complete", "C01_exec_tokens_sound", "C01_exec_tokens_complete",
     "C01_document_sound", "C01_document_sound_la", "C01_document_complete", "C01_document_tokens_complete",
-    "C01_accepts_document",
+    "C01_accepts_document", "C01_parse_output_wf", "C01_parse_output_wf_strip",
+    "C01_follow", "C01_follow_value_type", "C01_accepts_document_strict", "C01_accepts_exec_strict_iff",
+    "C01_accepts_value_strict", "C01_accepts_type_strict",
     "C01_lex_sound", "C01_lex_complete_slack", "C01_lex_complete",
     "C01_accepts_exec", "C01_accepts_exec_strict", "C01_accepts_value", "C01_accepts_type",
 ]
